@@ -15,7 +15,7 @@ from pv.mon import contracts
 ID = 'C01'
 LEVEL = 'exploration'
 TECHNIQUE = ('differential runtime monitor: real parser+evaluator vs reference Boolean evaluator over '
-             'exhaustively enumerated sentences and all truth assignments; metamorphic variant monitor')
+             'exhaustively enumerated sentences and all truth assignments; metamorphic variant monitor; overlapping and first-use calls under a deterministic line-level thread scheduler (sys.monitoring)')
 RULE = ('strata: A = every grammatical token sequence over {(,),and,or,not,check} up to the length bound, '
         'leaves numbered left to right, and again with only one or two distinct leaves repeated; three leaf families (role checks, attribute checks, attribute names that begin with the letters of a keyword); B = random ASTs (<= ~60 tokens, leaf reuse, constants) each in '
         'several lexical variants (keyword case, ASCII whitespace, glued parentheses, redundant groups); '
